@@ -23,7 +23,7 @@ try:
     r = subprocess.run([os.path.join(V, 'check'), prop] + extra, env=env, capture_output=True, text=True, timeout=1500)
     out = r.stdout
     for line in out.splitlines():
-        if line.startswith(('VIOLATION', '  failed', 'UNDECIDED', 'CHECKER', 'KNOWN')) or 'tier=' in line:
+        if line.startswith(('VIOLATION', '  failed', 'UNDECIDED', 'STALE', 'CHECKER', 'KNOWN')) or 'tier=' in line:
             print(line[:300])
     if r.returncode == 3:
         print(r.stdout[-1500:], r.stderr[-1500:])
